@@ -74,6 +74,7 @@ def gen_case(tp, tier):
         return {'prog': scenario_move(tp), 'knobs': kn, 'perturb': 1,
                 'family': 0, 'scenario': 'move'}
     feat = {'tempo_clocks': True, 'sends': tp.draw(2) == 0, 'bind': True,
+            'inf_wait': True,
             'tempo_change': tp.draw(3) == 0,
             'sync': tp.draw(2) == 0, 'control': tp.draw(3) == 0,
             'draws': tp.draw(2) == 0, 'seeds': True}
@@ -405,6 +406,8 @@ def run_case(case, tape, ctx):
     agg = W.combine([rt])
     if rt['outcome'] != 'ok':
         return W.result(viol, agg, outcome=rt['outcome'])
+    if W.process_raised(viol, 'C10-1', nrt, nrt2):
+        return W.result(viol, agg)
     # 2. determinism of NRT: two fresh runs, byte-identical scores
     if nrt['raw'] != nrt2['raw']:
         viol.add('C10-2', 'nrt-score-differs',
@@ -419,6 +422,8 @@ def run_case(case, tape, ctx):
     prior['routines'][0]['body'] += [['wait', 7.5], ['rec'], ['msg', 99999]]
     nrt3 = S.subrun(tape, lambda st, emit: W.run_nrt(prog, st, emit,
                                                      prior=prior))
+    if W.process_raised(viol, 'C10-2', nrt3):
+        return W.result(viol, agg)
     if nrt3['raw'] != nrt['raw']:
         viol.add('C10-2', 'nrt-score-differs-after-reset',
                  'the score of the program rendered after main.reset() '
